@@ -546,5 +546,36 @@ Proof.
   destruct t as [|t]; cbn [nth_error] in *; [|exact (IH t E1 E2)]. injection E1 as ->. injection E2 as ->. exact Hpq.
 Qed.
 
+(* ------------------------------------------------------------------ *)
+(* non-vacuity: `A //c` + `B;` — token 2 (`B`) follows a line comment, its invariant is MustBreak; 3 or 7 spaces before it *)
+Definition spx (sp : N) : list ftoken :=
+  [(mkToken [] [65] TT_Identifier, mkFmt false 0 0 0 0);
+   (mkToken [] [47; 47; 99] (TT_Comment CoK_InlineLine), mkFmt false 0 0 0 1);
+   (mkToken [] [66] TT_Identifier, mkFmt false 1 0 0 sp);
+   (mkToken [] [59] (TT_Op OK_Semicolon), mkFmt false 0 0 0 0);
+   (mkToken [] [] TT_Eof, mkFmt false 1 0 0 0)].
+Definition spx_lines : list lline := [mkLine LLT_Unknown 0 None [0; 1; 2; 3]%nat; mkLine LLT_Eof 0 None [4]%nat].
+Definition spx_W : wsettings := mkWS 120 200 false 2 4.
+
+Example spx_rel : Forall2 tok_rel (spx 3) (spx 7).
+Proof. unfold spx. repeat constructor. Qed.
+
+Example spx_must_break : differing_are_must_break (map tokinfo_of (spx 3)) (map tokinfo_of (spx 7)) spx_lines.
+Proof.
+  intros lv r Hlv Hr Hd. vm_compute in Hlv. destruct Hlv as [<-|[<-|[]]]; cbn [lv_recs] in Hr;
+    repeat (destruct Hr as [<-|Hr]; [first [reflexivity|exfalso; apply Hd; reflexivity]|]); destruct Hr.
+Qed.
+
+Example spx_same_result :
+  snd (fst (olf_model (mkRS [10] [32; 32] [32; 32; 32; 32]) spx_W false spx_lines (spx 3))) = snd (fst (olf_model (mkRS [10] [32; 32] [32; 32; 32; 32]) spx_W false spx_lines (spx 7)))
+  /\ Forall2 out_rel (fst (fst (olf_model (mkRS [10] [32; 32] [32; 32; 32; 32]) spx_W false spx_lines (spx 3)))) (fst (fst (olf_model (mkRS [10] [32; 32] [32; 32; 32; 32]) spx_W false spx_lines (spx 7)))).
+Proof. destruct (olf_model_sp (mkRS [10] [32; 32] [32; 32; 32; 32]) spx_W spx_lines (spx 3) (spx 7) spx_rel spx_must_break) as (A & _ & C). split; assumption. Qed.
+
+(* the token is decided (a break), so here even the vectors are equal; and the hypothesis is needed: without MustBreak the spaces are read *)
+Example spx_vectors_equal :
+  fst (fst (olf_model (mkRS [10] [32; 32] [32; 32; 32; 32]) spx_W false spx_lines (spx 3))) = fst (fst (olf_model (mkRS [10] [32; 32] [32; 32; 32; 32]) spx_W false spx_lines (spx 7))).
+Proof. vm_compute. reflexivity. Qed.
+
+Print Assumptions solve_sp.
 Print Assumptions olf_model_sp.
 Print Assumptions olf_model_sp_line_start.
